@@ -24,6 +24,9 @@ type Mutant struct {
 	Rule   string // rule expected to report (prefix match on obligation rule)
 	KeySub string // optional substring the reporting key must contain
 	Why    string // what the mutant breaks and why the pinned tests do not see it
+	// Benign marks a behaviour-preserving refactor: the property still holds, so the check must stay
+	// silent; any new failing obligation is a false alarm of the checker.
+	Benign bool
 }
 
 var mutants []Mutant
@@ -37,6 +40,8 @@ type SelfTestSummary struct {
 	Skipped  int      `json:"skipped"`
 	Survived int      `json:"survived"`
 	Invalid  int      `json:"invalid"`
+	Benign   int      `json:"benign_refactors"`
+	Silent   int      `json:"benign_silent"`
 	Lines    []string `json:"outcomes"`
 }
 
@@ -63,7 +68,11 @@ func selfTestFor(repo, id string) SelfTestSummary {
 		if !applies {
 			continue
 		}
-		s.Mutants++
+		if m.Benign {
+			s.Benign++
+		} else {
+			s.Mutants++
+		}
 		overlay := map[string][]byte{}
 		skipped := ""
 		for _, e := range m.Edits {
@@ -84,6 +93,10 @@ func selfTestFor(repo, id string) SelfTestSummary {
 			overlay[path] = []byte(strings.Replace(string(src), e.Old, e.New, 1))
 		}
 		if skipped != "" {
+			if m.Benign {
+				s.Benign--
+				s.Mutants++
+			}
 			s.Skipped++
 			s.Lines = append(s.Lines, fmt.Sprintf("%s %s: skipped: %s", id, m.Name, skipped))
 			continue
@@ -116,6 +129,18 @@ func selfTestFor(repo, id string) SelfTestSummary {
 			}
 		}
 		sort.Strings(newKeys)
+		if m.Benign {
+			if len(newKeys) == 0 {
+				s.Silent++
+				s.Lines = append(s.Lines, fmt.Sprintf("%s %s: benign refactor, check stays silent", id, m.Name))
+			} else {
+				s.Survived++
+				s.Lines = append(s.Lines, fmt.Sprintf("%s %s: FALSE ALARM on a behaviour-preserving refactor: %v", id, m.Name, newKeys))
+			}
+			pm = nil
+			runtime.GC()
+			continue
+		}
 		if hit {
 			s.Killed++
 			s.Lines = append(s.Lines, fmt.Sprintf("%s %s: killed by %s", id, m.Name, strings.Join(newKeys, ", ")))
@@ -157,10 +182,12 @@ func runSelfTest(repo, prop, verif string) int {
 		tot.Skipped += s.Skipped
 		tot.Survived += s.Survived
 		tot.Invalid += s.Invalid
+		tot.Benign += s.Benign
+		tot.Silent += s.Silent
 		if s.Survived > 0 || s.Invalid > 0 {
 			exit = 1
 		}
 	}
-	fmt.Printf("SELFTEST total: %d mutants, %d killed, %d skipped, %d survived, %d invalid\n", tot.Mutants, tot.Killed, tot.Skipped, tot.Survived, tot.Invalid)
+	fmt.Printf("SELFTEST total: %d mutants, %d killed, %d skipped, %d survived, %d invalid; %d benign refactors, %d silent\n", tot.Mutants, tot.Killed, tot.Skipped, tot.Survived, tot.Invalid, tot.Benign, tot.Silent)
 	return exit
 }
